@@ -42,6 +42,11 @@ PROBES = {
             'unrelated-stream-between', 'segmented-delivery'],
 }
 
+# reach probes of the "long-lived application" runs (DESIGN section 12.1), tracked like the others
+PROBES['C07'] = list(PROBES['C07']) + ['more-than-6000-events']
+PROBES['C08'] = list(PROBES['C08']) + ['more-than-6000-events', 'more-than-900-listeners']
+PROBES['C09'] = list(PROBES['C09']) + ['more-than-128-via-connections-pending', 'more-than-128-via-connections-open-before-any-stream']
+
 HEXD = '0123456789ABCDEF'
 
 
